@@ -82,7 +82,7 @@ func (b *BinaryData) UnmarshalJSON(v []byte) error {
 	if err != nil {
 		return err
 	}
-	if s[0] != '\x00' {
+	if len(s) == 0 || s[0] != '\x00' {
 		return errors.New("binary string does not start with NUL")
 	}
 	*b, err = base64.StdEncoding.DecodeString(s[1:])
